@@ -138,6 +138,8 @@ struct Hist {
     int64_t max_time{0};
     uint64_t cp{0};
     std::set<uint256> invalidated;
+    std::map<COutPoint, std::pair<Txid, uint256>> prev_spender; // at the previous check point
+    std::map<Txid, uint256> prev_tx_block;
     // counters
     uint64_t n_blocks{0}, n_reorgs{0}, max_reorg_depth{0}, n_txs{0};
     std::vector<std::string> sig; // scenario events for the case signature
@@ -440,6 +442,27 @@ struct Hist {
         const uint256 tip = Tip();
         const View v = model.Replay(tip);
         const size_t H = v.chain.size();
+        {
+            // what the reorgs since the previous check point changed for the indexes
+            uint64_t moved = 0, respent = 0, unspent_again = 0, unconfirmed = 0;
+            for (auto& [txid, bh] : prev_tx_block) {
+                auto it = v.tx_block.find(txid);
+                if (it == v.tx_block.end()) ++unconfirmed;
+                else if (it->second != bh) ++moved;
+            }
+            for (auto& [op, sp] : prev_spender) {
+                auto it = v.spender.find(op);
+                if (it == v.spender.end()) ++unspent_again;
+                else if (it->second.first != sp.first) ++respent;
+            }
+            vh::log().obs("tx_reconfirmed_in_other_block", moved);
+            vh::log().obs("tx_no_longer_confirmed", unconfirmed);
+            vh::log().obs("outpoint_spent_by_other_tx", respent);
+            vh::log().obs("outpoint_unspent_again", unspent_again);
+            vh::log().obs("reorg_changed_spender_or_block", moved + respent + unspent_again + unconfirmed);
+            prev_tx_block = v.tx_block;
+            prev_spender = v.spender;
+        }
         vh::J rec;
         rec.u("case", vh::cur_case()).str("ev", "cp").u("cp", cp++).str("tip", tip.GetHex()).u("heights", H);
         std::vector<const CBlockIndex*> pidx(H);
@@ -565,7 +588,8 @@ struct Hist {
             if (flush_and_compare_node_stats) {
                 // the node's own from-scratch scan (ComputeUTXOStats over the flushed coins DB) for the tip
                 chainman().ActiveChainstate().ForceFlushStateToDisk(false);
-                const auto ns = kernel::ComputeUTXOStats(kernel::CoinStatsHashType::MUHASH, chainman().ActiveChainstate().CoinsDB(), chainman().m_blockman);
+                CCoinsViewDB* coins_db = WITH_LOCK(::cs_main, return &chainman().ActiveChainstate().CoinsDB());
+                const auto ns = kernel::ComputeUTXOStats(kernel::CoinStatsHashType::MUHASH, *coins_db, chainman().m_blockman);
                 const auto is = ci->LookUpStats(*pidx[H - 1]);
                 if (ns && is) {
                     if (ns->hashSerialized != is->hashSerialized || ns->nTransactionOutputs != is->nTransactionOutputs || ns->total_amount != is->total_amount || ns->nBogoSize != is->nBogoSize || ns->hashBlock != tip)
@@ -677,7 +701,7 @@ VH_CMD(idx_hist)
                     if (s.idx) continue;
                     H.StartIndex(s);
                 }
-                if (rng.coin()) std::this_thread::sleep_for(std::chrono::microseconds(rng.below(20000)));
+                if (rng.coin()) std::this_thread::sleep_for(std::chrono::microseconds(rng.below(4000)));
                 for (auto& s : H.slots)
                     if (rng.chance(2, 3)) {
                         const bool synced_before = s.idx && s.idx->GetSummary().synced;
@@ -736,6 +760,7 @@ VH_CMD(idx_hist)
                 {
                     LOCK(::cs_main);
                     H.chainman().ActiveChainstate().ResetBlockFailureFlags(H.chainman().m_blockman.LookupBlockIndex(h));
+                    H.chainman().RecalculateBestHeader(); // as the reconsiderblock RPC does
                 }
                 BlockValidationState state;
                 H.chainman().ActiveChainstate().ActivateBestChain(state);
